@@ -52,9 +52,9 @@ void verif_reject(void);
 #  define OUT(x) verif_output(#x, &(x), sizeof(x))
 #  define REGION_HOOK()
 #endif
-/* random bytes in a _Bool are not a bool: normalise through memory (native only; CBMC's nondet _Bool is 0/1) */
+/* random bytes in a _Bool are not a bool: normalise (natively through memory) */
 #ifdef VERIF_CBMC
-#  define NORM_BOOL(lv) ((void)0)
+#  define NORM_BOOL(lv) ((lv) = ((lv) ? 1 : 0))      /* CBMC's nondet _Bool is a byte: any non-zero value is true, but arithmetic on it sees the byte */
 #else
 #  define NORM_BOOL(lv) do { unsigned char vb_; memcpy(&vb_, &(lv), 1); vb_ = (vb_ != 0); memcpy(&(lv), &vb_, 1); } while (0)
 #endif
